@@ -65,6 +65,15 @@ fn main() {
         "C06" => checks::c06::run(&tier, only.as_ref()),
         "C07" => checks::c07::run(&tier, only.as_ref()),
         "C13" => checks::c13::run(&tier, only.as_ref()),
+        "SIZES" => {
+            for tier in ["quick", "thorough"] {
+                for (aux, red) in [(false, false), (true, true)] {
+                    let sp = if red { spaces::LayoutSpace::new_reduced(tier, aux) } else { spaces::LayoutSpace::new(tier, aux) };
+                    println!("layout space tier={tier} aux={aux} reduced={red}: {} cases per width\n   {}", sp.len(), sp.describe().replace("; ", "\n   "));
+                }
+            }
+            0
+        }
         "C08" => checks::c08::run(&tier, only.as_ref()),
         "C03" => checks::c03::run(&tier, only.as_ref()),
         _ => {
